@@ -188,6 +188,30 @@ def vnadata_script(seed):
         s.op("read_file %s" % qs(path))
         s.op("vnadata_get_format $vy")
     s.op("dump_vnadata $vy")
+    # hand-written files whose lines fill the loaders' text buffers exactly
+    # (81, 162 bytes) at the end of a field, in the middle of one and at the
+    # end of the line: every growth step of the scanners is then an
+    # allocation of its own to fail
+    npd = ("#NPD\n#:version 1.0\n#:ports 2\n#:frequencies 2\n"
+           "#:parameters Sri\n#:z0 50 +0j 50 +0j\n"
+           "1.0000e+9 +.1000000 +.2000000 +.3000000 +.4000000 +.5000000 "
+           "+.6000000 +.700000000 +.8000000\n"
+           "2.0000e+9 +.1000000 +.2000000 +.3000000 +.4000000 +.5000000 "
+           "+.6000000 +.7000000001 +.80000000000000000000000000000000000000000"
+           "000000000000000000000000000000000000000000000000001\n")
+    s.op("write_file \"c12h.npd\" %s" % qs(npd))
+    s.op("vh=vnadata_alloc")
+    s.op("vnadata_load $vh \"c12h.npd\"")
+    s.op("dump_vnadata $vh")
+    ts = ("# GHz S RI R 50\n"
+          "1.0000000 +.1000000 +.2000000 +.3000000 +.4000000 +.5000000 "
+          "+.6000000 +.700000000 +.8000000\n"
+          "2.0 .1 .2 .3 .4 .5 .6 .7 "
+          ".80000000000000000000000000000000000000000000000000000000000000000"
+          "00000000000000000000000000000000000000000001\n")
+    s.op("write_file \"c12h.s2p\" %s" % qs(ts))
+    s.op("vnadata_load $vh \"c12h.s2p\"")
+    s.op("dump_vnadata $vh")
     return s.text()
 
 
